@@ -1,3 +1,4 @@
+import RulioModel.Gen.Loc
 import RulioModel.MatchSpec
 import RulioModel.MatchFrag
 import RulioProofs.MatchExamples
@@ -387,3 +388,14 @@ example : matchJI (.str "?<=n") (.num 10) [("?<=n", .num 10), ("?n", .str "x")] 
   rw [ineq_semantics_target_other "?<=n" "<=" "n" (by decide) _ 10 10 (.str "x") (by simp [Bs.get?]) (by simp [Bs.get?])
     (by intro c h; cases h)]
   simp [ineqSat]
+
+
+/-! ## Go-typed inputs: what `cast` converts before the matcher runs
+
+The matcher of the model sees JSON values. `CastMatcher` first converts `core.Map`, typed slices (through `ISlice` in the
+`default` clause) and the integer and float32 types, which the Sheens matcher does not normalise inside arrays. The table
+is regenerated from `core/match.go` on every run; the typed modes of the differential run exercise each case. -/
+
+/-- `cast` names exactly these types (a dropped case leaves that Go type unconverted inside arrays) -/
+theorem cast_types :
+    Gen.castTypes = [["Map", "map[string]interface{}", "[]interface{}", "int", "int32", "int64", "float32", "default"]] := by decide
